@@ -1,6 +1,6 @@
 (* Extraction of the executable models of the `col` cluster to OCaml.  ExtrOcamlBasic only. *)
 From Coq Require Import Extraction ExtrOcamlBasic ZArith NArith.
-From LV Require Import Model.CodecBase Model.IntEnc Model.FloatEnc Model.StrEnc Model.Codec Model.ColumnBuffer Model.Ingest.
+From LV Require Import Model.CodecBase Model.IntEnc Model.FloatEnc Model.StrEnc Model.Codec Model.ColumnBuffer Model.Ingest Model.CompactionDecode.
 Extraction Language OCaml.
 (* keep OCaml's own List / String usable by the glue files *)
 Extraction Blacklist List String Int Sx Conv Loop Lvmodel.
@@ -12,4 +12,5 @@ Separate Extraction
   StrEnc.str_finalize
   Codec.column_cells Codec.decode_column
   ColumnBuffer.finalize ColumnBuffer.run_pushes ColumnBuffer.colbuf_null ColumnBuffer.i64_to_string
-  Ingest.col_ops Ingest.expected Ingest.stored.
+  Ingest.col_ops Ingest.expected Ingest.stored
+  CompactionDecode.decode_free CompactionDecode.compact_column CompactionDecode.compact_ops.
